@@ -407,7 +407,8 @@ bool dtoa_fixed(double val, char decimal_point, Result& result, std::false_type)
         return true;
     }
 
-    char buffer[100];
+    // "%1.17f" of the largest double: sign, 309 digits, decimal point, 17 digits, terminator
+    char buffer[352];
     int precision = std::numeric_limits<double>::digits10;
     int length = snprintf(buffer, sizeof(buffer), "%1.*f", precision, val);
     if (length < 0)
